@@ -7,7 +7,7 @@ unwinding assertions stay on, kani::cover! witnesses guard against vacuity."""
 import concurrent.futures, os, re, shutil, subprocess, time
 from common import *
 
-KANI_TARGET = os.path.join(CACHE, 'kani-target')
+KANI_TARGET = os.environ.get('VERIF_KANI_TARGET') or os.path.join(CACHE, 'kani-target')
 
 # site name -> (crate dir, source file the module line is appended to, harness source in /verif/kani)
 SITES = {
